@@ -5,3 +5,5 @@ mod util;
 mod env;
 #[cfg(kani)]
 mod astar;
+// `edge.rs` (edge-oriented route assembly, round 2 attempt): not compiled - both witnesses and the main
+// harness ran out of memory (24 GB each after 11 min); kept as a documented attempt, see DESIGN 9.4
